@@ -178,13 +178,14 @@ def die_then_submit(mw=2):
               ["submit_expect", "z"], shutdown(True)])
 
 
-def map_prog(chunksize, lens, mw=2, timeout=None, kind="plain", shape="list"):
+def map_prog(chunksize, lens, mw=2, timeout=None, kind="plain", shape="list", fn=None):
     """shape: how the iterables are given - lists, one-shot iterators, the SAME iterator passed
     len(lens) times (the grouper idiom), or generators whose values depend on how far the
     others have been consumed."""
-    fn = {1: "sq", 2: "add", 3: "add3"}[len(lens)]
+    tag = "" if fn is None else "-" + fn
+    fn = fn or {1: "sq", 2: "add", 3: "add3"}[len(lens)]
     return P(f"map-c{chunksize}-l{'x'.join(map(str, lens))}-w{mw}-t{timeout}"
-             + ("" if shape == "list" else "-" + shape),
+             + ("" if shape == "list" else "-" + shape) + tag,
              pool(kind, mw, timeout),
              [NEW, ["map", "m", fn, chunksize, list(lens), shape], shutdown(True)])
 
@@ -412,6 +413,15 @@ def timeout_resize(old=2, new=1, timeout=0.05):
     return P(f"timeout-resize-{old}to{new}", pool("reusable", old, timeout),
              [NEW, sub("a", "ok", 1), ["result", "a"], ["reuse", dict(max_workers=new)],
               sub("b", "ok", 2), sub("c", "ok", 3), WAIT, shutdown(True)])
+
+
+def grow_then_rest(old=2, new=4, timeout=0.05):
+    """Growing resize of an idle pool with finite idle timeout, then a pause much shorter than
+    the timeout: for idle timers that fire while the new workers are being spawned, the pool
+    must then still have the requested number of workers, the previous ones among them."""
+    return P(f"grow-then-rest-{old}to{new}", pool("reusable", old, timeout),
+             [NEW] + [sub(f"a{i}", "ok", i) for i in range(old)] + [WAIT,
+              ["reuse", dict(max_workers=new)], ["sleep", timeout / 5], ["probe"], shutdown(True)])
 
 
 def saturate(mw=2, extra=1, timeout=None, kind="plain", cpu=2):
